@@ -86,6 +86,7 @@ Definition c_star : N := 42. Definition c_slash : N := 47. Definition c_colon : 
 Definition c_bslash : N := 92. Definition c_lbrace : N := 123. Definition c_rbrace : N := 125.
 
 Definition is_nl (c : N) : bool := ((c =? c_nl) || (c =? c_cr))%N.
+Definition is_sptab (c : N) : bool := ((c =? c_sp) || (c =? c_tab))%N.
 Definition is_digit (c : N) : bool := ((48 <=? c) && (c <=? 57))%N.
 Definition is_alpha_ (c : N) : bool :=
   (((97 <=? c) && (c <=? 122)) || ((65 <=? c) && (c <=? 90)) || (c =? 95))%N.
@@ -296,7 +297,7 @@ Fixpoint ws_loop (f : nat) (nn i : nat) (inc : bool) : pres (nat * nat) :=
   | S f' =>
       if negb (i <? len) then Done (Ok (i, nn)) else
       do c <- next_char i;
-      if ((c =? c_sp) || (c =? c_tab))%N then ws_loop f' nn (i + len_utf8 c) inc
+      if is_sptab c then ws_loop f' nn (i + len_utf8 c) inc
       else if is_nl c then
         if negb inc then Done (Err (mk_error ReachedEOL i))
         else ws_loop f' (S nn) (i + len_utf8 c) inc
@@ -458,3 +459,855 @@ Definition parse_string (i : nat) : pres (nat * str) :=
   end.
 
 End Lexical.
+
+(* ======================================================================== *)
+(*  GrammarAST                                                               *)
+(* ======================================================================== *)
+Inductive ykind := KOriginal | KGrmtools | KEco.
+Inductive assoc := ALeft | ARight | ANonassoc.
+Inductive symbol := SRule (n : str) (sp : span) | SToken (n : str) (sp : span).
+
+Record production := mkProd {
+  p_syms : list symbol;
+  p_prec : option str;
+  p_action : option (str * span);
+  p_span : span }.
+
+Record rule := mkRule {
+  r_name : str; r_span : span;
+  r_pidxs : list nat;
+  r_actiont : option str }.
+
+(* hash maps are association lists in insertion order (their iteration order
+   is only observed by complete_and_validate's %epp check, see [first_unknown_epp]) *)
+Record gast := mkAst {
+  a_start : option (str * span);
+  a_rules : list rule;                               (* IndexMap, insertion order *)
+  a_prods : list production;
+  a_token_directives : list nat;                     (* HashSet<usize> *)
+  a_tokens : list str;                               (* IndexSet *)
+  a_spans : list span;
+  a_precs : list (str * (nat * assoc * span));
+  a_avoid_insert : option (list (str * span));
+  a_implicit_tokens : option (list (str * span));
+  a_epp : list (str * (span * (str * span)));
+  a_expect : option (N * span);
+  a_expectrr : option (N * span);
+  a_parse_param : option (str * str);
+  a_parse_generics : option str;
+  a_programs : option str;
+  a_expect_unused : list symbol }.
+
+(* GrammarAST::new *)
+Definition ast_new : gast :=
+  mkAst None [] [] [] [] [] [] None None [] None None None None None [].
+
+Definition upd_start a v := mkAst v (a_rules a) (a_prods a) (a_token_directives a) (a_tokens a) (a_spans a) (a_precs a) (a_avoid_insert a) (a_implicit_tokens a) (a_epp a) (a_expect a) (a_expectrr a) (a_parse_param a) (a_parse_generics a) (a_programs a) (a_expect_unused a).
+Definition upd_rules a v := mkAst (a_start a) v (a_prods a) (a_token_directives a) (a_tokens a) (a_spans a) (a_precs a) (a_avoid_insert a) (a_implicit_tokens a) (a_epp a) (a_expect a) (a_expectrr a) (a_parse_param a) (a_parse_generics a) (a_programs a) (a_expect_unused a).
+Definition upd_prods a v := mkAst (a_start a) (a_rules a) v (a_token_directives a) (a_tokens a) (a_spans a) (a_precs a) (a_avoid_insert a) (a_implicit_tokens a) (a_epp a) (a_expect a) (a_expectrr a) (a_parse_param a) (a_parse_generics a) (a_programs a) (a_expect_unused a).
+Definition upd_tokdirs a v := mkAst (a_start a) (a_rules a) (a_prods a) v (a_tokens a) (a_spans a) (a_precs a) (a_avoid_insert a) (a_implicit_tokens a) (a_epp a) (a_expect a) (a_expectrr a) (a_parse_param a) (a_parse_generics a) (a_programs a) (a_expect_unused a).
+Definition upd_tokens a v := mkAst (a_start a) (a_rules a) (a_prods a) (a_token_directives a) v (a_spans a) (a_precs a) (a_avoid_insert a) (a_implicit_tokens a) (a_epp a) (a_expect a) (a_expectrr a) (a_parse_param a) (a_parse_generics a) (a_programs a) (a_expect_unused a).
+Definition upd_spans a v := mkAst (a_start a) (a_rules a) (a_prods a) (a_token_directives a) (a_tokens a) v (a_precs a) (a_avoid_insert a) (a_implicit_tokens a) (a_epp a) (a_expect a) (a_expectrr a) (a_parse_param a) (a_parse_generics a) (a_programs a) (a_expect_unused a).
+Definition upd_precs a v := mkAst (a_start a) (a_rules a) (a_prods a) (a_token_directives a) (a_tokens a) (a_spans a) v (a_avoid_insert a) (a_implicit_tokens a) (a_epp a) (a_expect a) (a_expectrr a) (a_parse_param a) (a_parse_generics a) (a_programs a) (a_expect_unused a).
+Definition upd_avoid a v := mkAst (a_start a) (a_rules a) (a_prods a) (a_token_directives a) (a_tokens a) (a_spans a) (a_precs a) v (a_implicit_tokens a) (a_epp a) (a_expect a) (a_expectrr a) (a_parse_param a) (a_parse_generics a) (a_programs a) (a_expect_unused a).
+Definition upd_implicit a v := mkAst (a_start a) (a_rules a) (a_prods a) (a_token_directives a) (a_tokens a) (a_spans a) (a_precs a) (a_avoid_insert a) v (a_epp a) (a_expect a) (a_expectrr a) (a_parse_param a) (a_parse_generics a) (a_programs a) (a_expect_unused a).
+Definition upd_epp a v := mkAst (a_start a) (a_rules a) (a_prods a) (a_token_directives a) (a_tokens a) (a_spans a) (a_precs a) (a_avoid_insert a) (a_implicit_tokens a) v (a_expect a) (a_expectrr a) (a_parse_param a) (a_parse_generics a) (a_programs a) (a_expect_unused a).
+Definition upd_expect a v := mkAst (a_start a) (a_rules a) (a_prods a) (a_token_directives a) (a_tokens a) (a_spans a) (a_precs a) (a_avoid_insert a) (a_implicit_tokens a) (a_epp a) v (a_expectrr a) (a_parse_param a) (a_parse_generics a) (a_programs a) (a_expect_unused a).
+Definition upd_expectrr a v := mkAst (a_start a) (a_rules a) (a_prods a) (a_token_directives a) (a_tokens a) (a_spans a) (a_precs a) (a_avoid_insert a) (a_implicit_tokens a) (a_epp a) (a_expect a) v (a_parse_param a) (a_parse_generics a) (a_programs a) (a_expect_unused a).
+Definition upd_parse_param a v := mkAst (a_start a) (a_rules a) (a_prods a) (a_token_directives a) (a_tokens a) (a_spans a) (a_precs a) (a_avoid_insert a) (a_implicit_tokens a) (a_epp a) (a_expect a) (a_expectrr a) v (a_parse_generics a) (a_programs a) (a_expect_unused a).
+Definition upd_parse_generics a v := mkAst (a_start a) (a_rules a) (a_prods a) (a_token_directives a) (a_tokens a) (a_spans a) (a_precs a) (a_avoid_insert a) (a_implicit_tokens a) (a_epp a) (a_expect a) (a_expectrr a) (a_parse_param a) v (a_programs a) (a_expect_unused a).
+Definition upd_programs a v := mkAst (a_start a) (a_rules a) (a_prods a) (a_token_directives a) (a_tokens a) (a_spans a) (a_precs a) (a_avoid_insert a) (a_implicit_tokens a) (a_epp a) (a_expect a) (a_expectrr a) (a_parse_param a) (a_parse_generics a) v (a_expect_unused a).
+Definition upd_expect_unused a v := mkAst (a_start a) (a_rules a) (a_prods a) (a_token_directives a) (a_tokens a) (a_spans a) (a_precs a) (a_avoid_insert a) (a_implicit_tokens a) (a_epp a) (a_expect a) (a_expectrr a) (a_parse_param a) (a_parse_generics a) (a_programs a) v.
+
+(* IndexSet::get_index_of *)
+Fixpoint index_of (l : list str) (n : str) (k : nat) : option nat :=
+  match l with [] => None | x :: l' => if str_eqb x n then Some k else index_of l' n (S k) end.
+Definition get_index_of (l : list str) (n : str) : option nat := index_of l n 0.
+(* IndexSet::insert_full: (index, newly inserted, set) *)
+Definition insert_full (l : list str) (n : str) : nat * bool * list str :=
+  match get_index_of l n with
+  | Some k => (k, false, l)
+  | None => (List.length l, true, l ++ [n])
+  end.
+(* if self.ast.tokens.insert(n) { self.ast.spans.push(span) } *)
+Definition tokens_insert (a : gast) (n : str) (sp : span) : gast :=
+  let '(_, fresh, toks) := insert_full (a_tokens a) n in
+  if fresh then upd_spans (upd_tokens a toks) (a_spans a ++ [sp]) else a.
+(* HashSet<usize>::insert *)
+Definition nat_set_insert (l : list nat) (k : nat) : list nat :=
+  if existsb (Nat.eqb k) l then l else l ++ [k].
+
+Fixpoint assoc_get {V} (l : list (str * V)) (n : str) : option V :=
+  match l with [] => None | (k, v) :: l' => if str_eqb k n then Some v else assoc_get l' n end.
+
+(* get_rule *)
+Fixpoint get_rule (rs : list rule) (n : str) : option rule :=
+  match rs with [] => None | r :: rs' => if str_eqb (r_name r) n then Some r else get_rule rs' n end.
+(* add_rule (only called when get_rule is None; IndexMap::insert replaces in place otherwise) *)
+Fixpoint rules_insert (rs : list rule) (r : rule) : list rule :=
+  match rs with
+  | [] => [r]
+  | x :: rs' => if str_eqb (r_name x) (r_name r) then r :: rs' else x :: rules_insert rs' r
+  end.
+Definition add_rule (a : gast) (n : str) (sp : span) (actiont : option str) : gast :=
+  upd_rules a (rules_insert (a_rules a) (mkRule n sp [] actiont)).
+(* add_prod: self.rules[&rule_name] panics on a missing key *)
+Fixpoint rules_push_pidx (rs : list rule) (n : str) (pidx : nat) : option (list rule) :=
+  match rs with
+  | [] => None
+  | x :: rs' =>
+      if str_eqb (r_name x) n
+      then Some (mkRule (r_name x) (r_span x) (r_pidxs x ++ [pidx]) (r_actiont x) :: rs')
+      else match rules_push_pidx rs' n pidx with Some l => Some (x :: l) | None => None end
+  end.
+Definition add_prod (a : gast) (rn : str) (syms : list symbol) (prec : option str)
+           (action : option (str * span)) (sp : span) : outcome gast :=
+  match rules_push_pidx (a_rules a) rn (List.length (a_prods a)) with
+  | None => Panic
+  | Some rs => Done (upd_prods (upd_rules a rs) (a_prods a ++ [mkProd syms prec action sp]))
+  end.
+
+(* ======================================================================== *)
+(*  Parser state: num_newlines, ast, global_actiontype, errs                 *)
+(* ======================================================================== *)
+Record pst := mkSt { nn : nat; ast : gast; gat : option (str * span); errs : list yerr }.
+Definition set_nn (st : pst) (n : nat) := mkSt n (ast st) (gat st) (errs st).
+Definition set_ast (st : pst) (a : gast) := mkSt (nn st) a (gat st) (errs st).
+Definition set_gat (st : pst) (g : option (str * span)) := mkSt (nn st) (ast st) g (errs st).
+Definition set_errs (st : pst) (e : list yerr) := mkSt (nn st) (ast st) (gat st) e.
+
+(* state always survives (ASTWithValidityInfo keeps the partial AST) *)
+Definition sres (A : Type) := outcome (pst * res A).
+Definition sbind {A B} (x : sres A) (f : pst -> A -> sres B) : sres B :=
+  match x with
+  | Done (st, Ok a) => f st a
+  | Done (st, Err e) => Done (st, Err e)
+  | Panic => Panic
+  | OutOfFuel => OutOfFuel
+  end.
+Notation "'bind' st , x <- e1 ; e2" := (sbind e1 (fun st x => e2))
+  (at level 200, st name, x pattern, e1 at level 100, e2 at level 200, right associativity).
+
+(* a lexical function that does not touch the state *)
+Definition lift {A} (st : pst) (x : pres A) : sres A :=
+  match x with
+  | Done (Ok a) => Done (st, Ok a)
+  | Done (Err e) => Done (st, Err e)
+  | Panic => Panic
+  | OutOfFuel => OutOfFuel
+  end.
+(* a lexical function that returns the new num_newlines as last component *)
+Definition lift_nn {A} (st : pst) (x : pres (A * nat)) : sres A :=
+  match x with
+  | Done (Ok (a, n)) => Done (set_nn st n, Ok a)
+  | Done (Err e) => Done (st, Err e)
+  | Panic => Panic
+  | OutOfFuel => OutOfFuel
+  end.
+(* an outcome without error channel *)
+Definition lifto {A} (st : pst) (x : outcome A) : sres A :=
+  match x with Done a => Done (st, Ok a) | Panic => Panic | OutOfFuel => OutOfFuel end.
+Definition fail {A} (st : pst) (k : ekind) (off : nat) : sres A := Done (st, Err (mk_error k off)).
+Definition ret {A} (st : pst) (a : A) : sres A := Done (st, Ok a).
+
+(* keyword literals as code points (checked against the string literal by [kw_literals_ok]) *)
+Definition kw_pp : str := [37; 37]%N.
+Definition kw_percent : str := [37]%N.
+Definition kw_token : str := [37; 116; 111; 107; 101; 110]%N.
+Definition kw_actiontype : str := [37; 97; 99; 116; 105; 111; 110; 116; 121; 112; 101]%N.
+Definition kw_start : str := [37; 115; 116; 97; 114; 116]%N.
+Definition kw_epp : str := [37; 101; 112; 112]%N.
+Definition kw_expect_rr : str := [37; 101; 120; 112; 101; 99; 116; 45; 114; 114]%N.
+Definition kw_expect_unused : str := [37; 101; 120; 112; 101; 99; 116; 45; 117; 110; 117; 115; 101; 100]%N.
+Definition kw_expect : str := [37; 101; 120; 112; 101; 99; 116]%N.
+Definition kw_avoid_insert : str := [37; 97; 118; 111; 105; 100; 95; 105; 110; 115; 101; 114; 116]%N.
+Definition kw_parse_param : str := [37; 112; 97; 114; 115; 101; 45; 112; 97; 114; 97; 109]%N.
+Definition kw_parse_generics : str := [37; 112; 97; 114; 115; 101; 45; 103; 101; 110; 101; 114; 105; 99; 115]%N.
+Definition kw_implicit_tokens : str := [37; 105; 109; 112; 108; 105; 99; 105; 116; 95; 116; 111; 107; 101; 110; 115]%N.
+Definition kw_left : str := [37; 108; 101; 102; 116]%N.
+Definition kw_right : str := [37; 114; 105; 103; 104; 116]%N.
+Definition kw_nonassoc : str := [37; 110; 111; 110; 97; 115; 115; 111; 99]%N.
+Definition kw_prec : str := [37; 112; 114; 101; 99]%N.
+Definition kw_empty : str := [37; 101; 109; 112; 116; 121]%N.
+Definition kw_arrow : str := [45; 62]%N.
+Definition kw_colon : str := [58]%N.
+Definition kw_bar : str := [124]%N.
+Definition kw_semi : str := [59]%N.
+Definition kw_dq : str := [34]%N.
+Definition kw_sq : str := [39]%N.
+Definition kw_lbrace : str := [123]%N.
+Definition kw_grmtools : str := [37; 103; 114; 109; 116; 111; 111; 108; 115]%N.
+Lemma kw_literals_ok :
+  kw_pp = lit "%%"
+  /\ kw_percent = lit "%"
+  /\ kw_token = lit "%token"
+  /\ kw_actiontype = lit "%actiontype"
+  /\ kw_start = lit "%start"
+  /\ kw_epp = lit "%epp"
+  /\ kw_expect_rr = lit "%expect-rr"
+  /\ kw_expect_unused = lit "%expect-unused"
+  /\ kw_expect = lit "%expect"
+  /\ kw_avoid_insert = lit "%avoid_insert"
+  /\ kw_parse_param = lit "%parse-param"
+  /\ kw_parse_generics = lit "%parse-generics"
+  /\ kw_implicit_tokens = lit "%implicit_tokens"
+  /\ kw_left = lit "%left"
+  /\ kw_right = lit "%right"
+  /\ kw_nonassoc = lit "%nonassoc"
+  /\ kw_prec = lit "%prec"
+  /\ kw_empty = lit "%empty"
+  /\ kw_arrow = lit "->"
+  /\ kw_colon = lit ":"
+  /\ kw_bar = lit "|"
+  /\ kw_semi = lit ";"
+  /\ kw_dq = lit """"
+  /\ kw_sq = lit "'"
+  /\ kw_lbrace = lit "{"
+  /\ kw_grmtools = lit "%grmtools".
+Proof. repeat split; reflexivity. Qed.
+
+Section Parser.
+Variable fixed : bool.
+Variable kind : ykind.     (* self.yacc_kind *)
+Variable src : str.
+Variable len : nat.
+Variable fuel : nat.
+
+Definition ws (st : pst) (i : nat) (inc : bool) : sres nat :=
+  match parse_ws fixed src len fuel (nn st) i inc with
+  | Done (Ok (i', n)) => Done (set_nn st n, Ok i')
+  | Done (Err e) => Done (st, Err e)
+  | Panic => Panic
+  | OutOfFuel => OutOfFuel
+  end.
+Definition look (st : pst) (s : str) (i : nat) : sres (option nat) :=
+  lifto st (lookahead_is src s i).
+Definition is_some {A} (o : option A) : bool := match o with Some _ => true | None => false end.
+
+Definition dup (st : pst) (k : ekind) (orig sp : span) : sres unit :=
+  match add_duplicate_occurrence (errs st) k orig sp with
+  | Done l => Done (set_errs st l, Ok tt)
+  | Panic => Panic
+  | OutOfFuel => OutOfFuel
+  end.
+
+(* ---- parse_declarations: one function per directive ---------------------- *)
+
+(* %token: while i < len && lookahead_is("%", i).is_none() *)
+Fixpoint token_loop (f : nat) (st : pst) (i : nat) : sres nat :=
+  match f with
+  | 0 => OutOfFuel
+  | S f' =>
+      if negb (i <? len) then ret st i else
+      bind st, la <- look st kw_percent i;
+      if is_some la then ret st i else
+      bind st, t <- lift st (parse_token src i);
+      let '(j, n, sp, _) := t in
+      let '(idx, fresh, toks) := insert_full (a_tokens (ast st)) n in
+      let a1 := if fresh then upd_spans (upd_tokens (ast st) toks) (a_spans (ast st) ++ [sp])
+                else ast st in
+      let a2 := upd_tokdirs a1 (nat_set_insert (a_token_directives a1) idx) in
+      bind st, i' <- ws (set_ast st a2) j true;
+      token_loop f' st i'
+  end.
+Definition decl_token (st : pst) (j : nat) : sres nat :=
+  bind st, i <- ws st j false; token_loop fuel st i.
+
+Definition decl_actiontype (st : pst) (j : nat) : sres nat :=
+  bind st, i <- ws st j false;
+  bind st, t <- lift st (parse_to_eol src len fuel i);
+  let '(j, n) := t in
+  bind st, sp <- lifto st (mk_span i j);
+  bind st, _ <- match gat st with
+                | Some (_, orig) => dup st DuplicateActiontypeDeclaration orig sp
+                | None => ret (set_gat st (Some (n, sp))) tt
+                end;
+  ws st j true.
+
+Definition decl_start (st : pst) (j : nat) : sres nat :=
+  bind st, i <- ws st j false;
+  bind st, t <- lift st (parse_name src i);
+  let '(j, n) := t in
+  bind st, sp <- lifto st (mk_span i j);
+  bind st, _ <- match a_start (ast st) with
+                | Some (_, orig) => dup st DuplicateStartDeclaration orig sp
+                | None => ret (set_ast st (upd_start (ast st) (Some (n, sp)))) tt
+                end;
+  ws st j true.
+
+Definition decl_epp (st : pst) (j : nat) : sres nat :=
+  bind st, i <- ws st j false;
+  bind st, t <- lift st (parse_token src i);
+  let '(j, n, _, _) := t in
+  bind st, sp <- lifto st (mk_span i j);
+  bind st, i <- ws st j false;
+  bind st, t2 <- lift st (parse_string src len fuel i);
+  let '(j, v) := t2 in
+  bind st, vsp <- lifto st (mk_span i j);
+  bind st, _ <- match assoc_get (a_epp (ast st)) n with
+                | Some (orig, _) => dup st DuplicateEPP orig sp
+                | None => ret (set_ast st (upd_epp (ast st) (a_epp (ast st) ++ [(n, (sp, (v, vsp)))]))) tt
+                end;
+  ws st j true.
+
+Definition decl_expectrr (st : pst) (j : nat) : sres nat :=
+  bind st, i <- ws st j false;
+  bind st, t <- lift st (parse_int src len fuel i);
+  let '(j, n) := t in
+  bind st, sp <- lifto st (mk_span i j);
+  bind st, _ <- match a_expectrr (ast st) with
+                | Some (_, orig) => dup st DuplicateExpectRRDeclaration orig sp
+                | None => ret (set_ast st (upd_expectrr (ast st) (Some (n, sp)))) tt
+                end;
+  ws st j true.
+
+Definition decl_expect (st : pst) (j : nat) : sres nat :=
+  bind st, i <- ws st j false;
+  bind st, t <- lift st (parse_int src len fuel i);
+  let '(j, n) := t in
+  bind st, sp <- lifto st (mk_span i j);
+  bind st, _ <- match a_expect (ast st) with
+                | Some (_, orig) => dup st DuplicateExpectDeclaration orig sp
+                | None => ret (set_ast st (upd_expect (ast st) (Some (n, sp)))) tt
+                end;
+  ws st j true.
+
+(* %expect-unused *)
+Fixpoint expect_unused_loop (f : nat) (st : pst) (i : nat) : sres nat :=
+  match f with
+  | 0 => OutOfFuel
+  | S f' =>
+      if negb (i <? len) then ret st i else
+      bind st, la <- look st kw_percent i;
+      if is_some la then ret st i else
+      bind st, j <-
+        match parse_name src i with
+        | Done (Ok (j, n)) =>
+            bind st, sp <- lifto st (mk_span i j);
+            ret (set_ast st (upd_expect_unused (ast st) (a_expect_unused (ast st) ++ [SRule n sp]))) j
+        | Done (Err _) =>
+            match parse_token src i with
+            | Done (Ok (j, n, sp, _)) =>
+                ret (set_ast st (upd_expect_unused (ast st) (a_expect_unused (ast st) ++ [SToken n sp]))) j
+            | Done (Err _) => fail st UnknownSymbol i
+            | Panic => Panic
+            | OutOfFuel => OutOfFuel
+            end
+        | Panic => Panic
+        | OutOfFuel => OutOfFuel
+        end;
+      bind st, i' <- ws st j true;
+      expect_unused_loop f' st i'
+  end.
+Definition decl_expect_unused (st : pst) (j : nat) : sres nat :=
+  bind st, i <- ws st j false; expect_unused_loop fuel st i.
+
+(* %avoid_insert / %implicit_tokens: while j < len && num_newlines unchanged
+   ([kwend] is the OUTER j of the Rust code: the loop condition never looks at i) *)
+Fixpoint avoid_loop (f : nat) (st : pst) (kwend i nn0 : nat) : sres nat :=
+  match f with
+  | 0 => OutOfFuel
+  | S f' =>
+      if negb ((kwend <? len) && (nn st =? nn0)) then ret st i else
+      bind st, t <- lift st (parse_token src i);
+      let '(j, n, sp, _) := t in
+      let a1 := tokens_insert (ast st) n sp in
+      match a_avoid_insert a1 with
+      | None => Panic                                   (* as_mut().unwrap() *)
+      | Some m =>
+          bind st, _ <- match assoc_get m n with
+                        | Some orig => dup (set_ast st a1) DuplicateAvoidInsertDeclaration orig sp
+                        | None => ret (set_ast st (upd_avoid a1 (Some (m ++ [(n, sp)])))) tt
+                        end;
+          bind st, i' <- ws st j true;
+          avoid_loop f' st kwend i' nn0
+      end
+  end.
+Definition decl_avoid_insert (st : pst) (j : nat) : sres nat :=
+  bind st, i <- ws st j false;
+  let nn0 := nn st in
+  let st := match a_avoid_insert (ast st) with
+            | None => set_ast st (upd_avoid (ast st) (Some []))
+            | Some _ => st
+            end in
+  avoid_loop fuel st j i nn0.
+
+Fixpoint implicit_loop (f : nat) (st : pst) (kwend i nn0 : nat) : sres nat :=
+  match f with
+  | 0 => OutOfFuel
+  | S f' =>
+      if negb ((kwend <? len) && (nn st =? nn0)) then ret st i else
+      bind st, t <- lift st (parse_token src i);
+      let '(j, n, sp, _) := t in
+      let a1 := tokens_insert (ast st) n sp in
+      match a_implicit_tokens a1 with
+      | None => Panic
+      | Some m =>
+          bind st, _ <- match assoc_get m n with
+                        | Some orig => dup (set_ast st a1) DuplicateImplicitTokensDeclaration orig sp
+                        | None => ret (set_ast st (upd_implicit a1 (Some (m ++ [(n, sp)])))) tt
+                        end;
+          bind st, i' <- ws st j true;
+          implicit_loop f' st kwend i' nn0
+      end
+  end.
+Definition decl_implicit_tokens (st : pst) (j : nat) : sres nat :=
+  bind st, i <- ws st j false;
+  let nn0 := nn st in
+  let st := match a_implicit_tokens (ast st) with
+            | None => set_ast st (upd_implicit (ast st) (Some []))
+            | Some _ => st
+            end in
+  implicit_loop fuel st j i nn0.
+
+Definition decl_parse_param (st : pst) (j : nat) : sres nat :=
+  bind st, i <- ws st j false;
+  bind st, t <- lift_nn st (parse_to_single_colon src len fuel (nn st) i);
+  let '(j, name) := t in
+  bind st, la <- look st kw_colon j;
+  match la with
+  | None => fail st MissingColon j
+  | Some j =>
+      bind st, i <- ws st j false;
+      bind st, t2 <- lift st (parse_to_eol src len fuel i);
+      let '(j, ty) := t2 in
+      ws (set_ast st (upd_parse_param (ast st) (Some (name, ty)))) j true
+  end.
+
+Definition decl_parse_generics (st : pst) (j : nat) : sres nat :=
+  bind st, i <- ws st j false;
+  bind st, t <- lift st (parse_to_eol src len fuel i);
+  let '(j, ty) := t in
+  ws (set_ast st (upd_parse_generics (ast st) (Some ty))) j true.
+
+(* %left / %right / %nonassoc: while i < len && num_newlines unchanged *)
+Fixpoint prec_loop (f : nat) (st : pst) (i nn0 : nat) (level : nat) (k : assoc) : sres nat :=
+  match f with
+  | 0 => OutOfFuel
+  | S f' =>
+      if negb ((i <? len) && (nn0 =? nn st)) then ret st i else
+      bind st, t <- lift st (parse_token src i);
+      let '(j, n, sp, _) := t in
+      bind st, _ <- match assoc_get (a_precs (ast st)) n with
+                    | Some (_, orig) => dup st DuplicatePrecedence orig sp
+                    | None => ret (set_ast st (upd_precs (ast st) (a_precs (ast st) ++ [(n, (level, k, sp))]))) tt
+                    end;
+      bind st, i' <- ws st j true;
+      prec_loop f' st i' nn0 level k
+  end.
+Definition decl_prec (st : pst) (kend : nat) (level : nat) (k : assoc) : sres nat :=
+  bind st, i <- ws st kend false;
+  prec_loop fuel st i (nn st) level k.
+
+Definition is_original : bool := match kind with KOriginal => true | _ => false end.
+Definition is_eco : bool := match kind with KEco => true | _ => false end.
+
+(* the [while i < self.src.len()] loop of parse_declarations *)
+Fixpoint decl_loop (f : nat) (st : pst) (i : nat) (prec_level : nat) : sres nat :=
+  match f with
+  | 0 => OutOfFuel
+  | S f' =>
+      if negb (i <? len) then
+        (if i =? len then fail st PrematureEnd i else Panic)       (* debug_assert!(i == len) *)
+      else
+      let continue st i := decl_loop f' st i prec_level in
+      bind st, la <- look st kw_pp i;
+      if is_some la then ret st i else
+      bind st, la <- look st kw_token i;
+      match la with Some j => bind st, i <- decl_token st j; continue st i | None =>
+      bind st, la <- (if is_original then look st kw_actiontype i else ret st None);
+      match la with Some j => bind st, i <- decl_actiontype st j; continue st i | None =>
+      bind st, la <- look st kw_start i;
+      match la with Some j => bind st, i <- decl_start st j; continue st i | None =>
+      bind st, la <- look st kw_epp i;
+      match la with Some j => bind st, i <- decl_epp st j; continue st i | None =>
+      bind st, la <- look st kw_expect_rr i;
+      match la with Some j => bind st, i <- decl_expectrr st j; continue st i | None =>
+      bind st, la <- look st kw_expect_unused i;
+      match la with Some j => bind st, i <- decl_expect_unused st j; continue st i | None =>
+      bind st, la <- look st kw_expect i;
+      match la with Some j => bind st, i <- decl_expect st j; continue st i | None =>
+      bind st, la <- look st kw_avoid_insert i;
+      match la with Some j => bind st, i <- decl_avoid_insert st j; continue st i | None =>
+      bind st, la <- look st kw_parse_param i;
+      match la with Some j => bind st, i <- decl_parse_param st j; continue st i | None =>
+      bind st, la <- look st kw_parse_generics i;
+      match la with Some j => bind st, i <- decl_parse_generics st j; continue st i | None =>
+      bind st, la <- (if is_eco then look st kw_implicit_tokens i else ret st None);
+      match la with Some j => bind st, i <- decl_implicit_tokens st j; continue st i | None =>
+      bind st, la <- look st kw_left i;
+      bind st, ka <-
+        match la with
+        | Some j => ret st (Some (j, ALeft))
+        | None =>
+            bind st, la <- look st kw_right i;
+            match la with
+            | Some j => ret st (Some (j, ARight))
+            | None =>
+                bind st, la <- look st kw_nonassoc i;
+                match la with
+                | Some j => ret st (Some (j, ANonassoc))
+                | None => ret st None
+                end
+            end
+        end;
+      match ka with
+      | None => fail st UnknownDeclaration i
+      | Some (k, a) =>
+          bind st, i <- decl_prec st k prec_level a;
+          decl_loop f' st i (S prec_level)
+      end
+      end end end end end end end end end end end
+  end.
+
+Definition parse_declarations (st : pst) (i : nat) : sres nat :=
+  bind st, i <- ws st i true;
+  decl_loop fuel st i 0.
+
+(* ---- parse_rule ----------------------------------------------------------- *)
+Definition add_prod_st (st : pst) (rn : str) (syms : list symbol) (prec : option str)
+           (action : option (str * span)) (pstart : nat) (pend : option nat) (i : nat) : sres unit :=
+  bind st, sp <- lifto st (mk_span pstart (match pend with Some e => e | None => i end));
+  bind st, a <- lifto st (add_prod (ast st) rn syms prec action sp);
+  ret (set_ast st a) tt.
+
+Fixpoint rule_loop (f : nat) (st : pst) (rn : str) (i : nat) (syms : list symbol)
+         (prec : option str) (action : option (str * span)) (pstart : nat) (pend : option nat)
+  : sres nat :=
+  match f with
+  | 0 => OutOfFuel
+  | S f' =>
+      if negb (i <? len) then fail st IncompleteRule i else
+      bind st, la <- look st kw_bar i;
+      match la with
+      | Some j =>
+          bind st, _ <- add_prod_st st rn syms prec action pstart pend i;
+          bind st, i <- ws st j true;
+          rule_loop f' st rn i [] None None i None
+      | None =>
+      bind st, la <- look st kw_semi i;
+      match la with
+      | Some j =>
+          bind st, _ <- add_prod_st st rn syms prec action pstart pend i;
+          ret st j
+      | None =>
+      (* end of the loop body: i = self.parse_ws(i, true)?; next iteration *)
+      let next st i syms prec action pend :=
+        bind st, i <- ws st i true;
+        rule_loop f' st rn i syms prec action pstart pend in
+      bind st, l1 <- look st kw_dq i;
+      bind st, l2 <- (if is_some l1 then ret st l1 else look st kw_sq i);
+      if is_some l2 then
+        bind st, t <- lift st (parse_token src i);
+        let '(j, sym, sp, _) := t in
+        bind st, i <- ws st j true;
+        let st := set_ast st (tokens_insert (ast st) sym sp) in
+        next st i (syms ++ [SToken sym sp]) prec action (Some j)
+      else
+      bind st, la <- look st kw_prec i;
+      match la with
+      | Some j =>
+          bind st, i <- ws st j true;
+          bind st, t <- lift st (parse_token src i);
+          let '(k, sym, sp, _) := t in
+          let st := set_ast st (tokens_insert (ast st) sym sp) in
+          next st k syms (Some sym) action (Some k)
+      | None =>
+      bind st, la <- look st kw_lbrace i;
+      if is_some la then
+        let pos_action_start := i + 1 in
+        bind st, t <- lift_nn st (parse_action src len fuel (nn st) i);
+        let '(j, a) := t in
+        bind st, i' <- ws st j true;
+        bind st, asp <- lifto st (mk_span pos_action_start (pos_action_start + byte_len a));
+        bind st, t1 <- look st kw_bar i';
+        bind st, t2 <- (if is_some t1 then ret st t1 else look st kw_semi i');
+        if negb (is_some t2) then fail st ProductionNotTerminated i'
+        else next st i' syms prec (Some (a, asp)) (Some i)
+      else
+      bind st, la <- look st kw_empty i;
+      match la with
+      | Some j =>
+          bind st, k <- ws st j true;
+          bind st, t1 <- look st kw_bar k;
+          bind st, t2 <- (if is_some t1 then ret st t1 else look st kw_semi k);
+          bind st, t3 <- (if is_some t2 then ret st t2 else look st kw_lbrace k);
+          bind st, t4 <- (if is_some t3 then ret st t3 else look st kw_prec k);
+          if negb (match syms with [] => true | _ => false end) || negb (is_some t4)
+          then fail st NonEmptyProduction i
+          else next st k syms prec action (Some j)
+      | None =>
+          bind st, t <- lift st (parse_token src i);
+          let '(j, sym, sp, quoted) := t in
+          let is_tok :=
+            match get_index_of (a_tokens (ast st)) sym with
+            | Some idx => (quoted : bool) || existsb (Nat.eqb idx) (a_token_directives (ast st))
+            | None => false
+            end in
+          next st j (syms ++ [if is_tok then SToken sym sp else SRule sym sp]) prec action (Some j)
+      end
+      end
+      end
+      end
+  end.
+
+Definition parse_rule (st : pst) (i : nat) : sres nat :=
+  bind st, t <- lift st (parse_name src i);
+  let '(j, rn) := t in
+  bind st, sp <- lifto st (mk_span i j);
+  let st := match a_start (ast st) with
+            | None => set_ast st (upd_start (ast st) (Some (rn, sp)))
+            | Some _ => st
+            end in
+  bind st, i <-
+    match kind with
+    | KOriginal | KEco =>
+        let st := match get_rule (a_rules (ast st)) rn with
+                  | None => set_ast st (add_rule (ast st) rn sp
+                                          (match gat st with Some (s, _) => Some s | None => None end))
+                  | Some _ => st
+                  end in
+        ret st j
+    | KGrmtools =>
+        bind st, i <- ws st j true;
+        bind st, la <- look st kw_arrow i;
+        match la with
+        | None => fail st MissingRightArrow i
+        | Some j =>
+            bind st, i <- ws st j true;
+            bind st, t <- lift_nn st (parse_to_single_colon src len fuel (nn st) i);
+            let '(j, actiont) := t in
+            let st := match get_rule (a_rules (ast st)) rn with
+                      | None => set_ast st (add_rule (ast st) rn sp (Some actiont))
+                      | Some _ => st
+                      end in
+            ret st j
+        end
+    end;
+  bind st, i <- ws st i true;
+  bind st, la <- look st kw_colon i;
+  match la with
+  | None => fail st MissingColon i
+  | Some j =>
+      bind st, i <- ws st j true;
+      rule_loop fuel st rn i [] None None i None
+  end.
+
+(* parse_rules *)
+Fixpoint rules_loop (f : nat) (st : pst) (i : nat) : sres nat :=
+  match f with
+  | 0 => OutOfFuel
+  | S f' =>
+      if negb (i <? len) then ret st i else
+      bind st, la <- look st kw_pp i;
+      if is_some la then ret st i else
+      bind st, i <- parse_rule st i;
+      bind st, i <- ws st i true;
+      rules_loop f' st i
+  end.
+Definition parse_rules (st : pst) (i : nat) : sres nat :=
+  bind st, la <- look st kw_pp i;
+  match la with
+  | None => Panic                                             (* .unwrap() *)
+  | Some i => bind st, i <- ws st i true; rules_loop fuel st i
+  end.
+
+(* parse_programs *)
+Definition parse_programs (st : pst) (i : nat) : sres nat :=
+  bind st, la <- look st kw_pp i;
+  match la with
+  | Some j =>
+      bind st, i <- ws st j true;
+      bind st, prog <- lifto st (slice_from src i);
+      ret (set_ast st (upd_programs (ast st) (Some prog))) (i + byte_len prog)
+  | None => ret st i
+  end.
+
+(* YaccParser::parse after the %grmtools section parser returned position 0;
+   result: final state and the error vector *)
+Definition st0 : pst := mkSt 0 ast_new None [].
+Definition parse : outcome (pst * list yerr) :=
+  do r1 <- parse_declarations st0 0;
+  match r1 with
+  | (st, Err e) => Done (st, errs st ++ [e])
+  | (st, Ok i) =>
+      do r2 <- parse_rules st i;
+      match r2 with
+      | (st, Err e) => Done (st, errs st ++ [e])
+      | (st, Ok i) =>
+          do r3 <- parse_programs st i;
+          match r3 with
+          | (st, Err e) => Done (st, errs st ++ [e])
+          | (st, Ok _) => Done (st, errs st)
+          end
+      end
+  end.
+
+End Parser.
+
+(* ======================================================================== *)
+(*  GrammarAST::complete_and_validate                                        *)
+(* ======================================================================== *)
+Definition has_token (a : gast) (n : str) : bool := is_some (get_index_of (a_tokens a) n).
+Definition has_rule (a : gast) (n : str) : bool := is_some (get_rule (a_rules a) n).
+
+Fixpoint validate_syms (a : gast) (syms : list symbol) : option yerr :=
+  match syms with
+  | [] => None
+  | SRule n sp :: rest =>
+      if has_rule a n then validate_syms a rest else Some (mkErr (UnknownRuleRef n) [sp])
+  | SToken n sp :: rest =>
+      if has_token a n then validate_syms a rest else Some (mkErr (UnknownToken n) [sp])
+  end.
+
+Definition validate_prod (a : gast) (p : production) : option yerr :=
+  match (match p_prec p with
+         | Some n =>
+             if negb (has_token a n) then Some (mkErr (UnknownToken n) [(0, 0)])
+             else if negb (is_some (assoc_get (a_precs a) n)) then Some (mkErr (NoPrecForToken n) [(0, 0)])
+             else None
+         | None => None
+         end) with
+  | Some e => Some e
+  | None => validate_syms a (p_syms p)
+  end.
+
+Fixpoint validate_pidxs (a : gast) (pidxs : list nat) : outcome (option yerr) :=
+  match pidxs with
+  | [] => Done None
+  | pidx :: rest =>
+      do p <- nth_checked (a_prods a) pidx;                       (* &self.prods[pidx] *)
+      match validate_prod a p with
+      | Some e => Done (Some e)
+      | None => validate_pidxs a rest
+      end
+  end.
+
+Fixpoint validate_rules (a : gast) (rs : list rule) : outcome (option yerr) :=
+  match rs with
+  | [] => Done None
+  | r :: rest =>
+      do e <- validate_pidxs a (r_pidxs r);
+      match e with Some e => Done (Some e) | None => validate_rules a rest end
+  end.
+
+(* the implementation iterates a HashMap here: it reports SOME %epp key that is
+   neither a token nor an implicit token; the mirror (and the canonicalising
+   harness) take the one declared first *)
+Fixpoint first_unknown_epp (a : gast) (l : list (str * (span * (str * span)))) : option yerr :=
+  match l with
+  | [] => None
+  | (k, (sp, _)) :: rest =>
+      if has_token a k then first_unknown_epp a rest
+      else if match a_implicit_tokens a with Some it => is_some (assoc_get it k) | None => false end
+      then first_unknown_epp a rest
+      else Some (mkErr (UnknownEPP k) [sp])
+  end.
+
+Fixpoint validate_expect_unused (a : gast) (l : list symbol) : option yerr :=
+  match l with
+  | [] => None
+  | SRule n sp :: rest =>
+      if has_rule a n then validate_expect_unused a rest else Some (mkErr (UnknownRuleRef n) [sp])
+  | SToken n sp :: rest =>
+      if has_token a n then validate_expect_unused a rest else Some (mkErr (UnknownToken n) [sp])
+  end.
+
+Definition complete_and_validate (a : gast) : outcome (option yerr) :=
+  match a_start a with
+  | None => Done (Some (mkErr NoStartRule [(0, 0)]))
+  | Some (s, sp) =>
+      if negb (has_rule a s) then Done (Some (mkErr (InvalidStartRule s) [sp])) else
+      do e <- validate_rules a (a_rules a);
+      match e with
+      | Some e => Done (Some e)
+      | None =>
+          match first_unknown_epp a (a_epp a) with
+          | Some e => Done (Some e)
+          | None => Done (validate_expect_unused a (a_expect_unused a))
+          end
+      end
+  end.
+
+(* ======================================================================== *)
+(*  GrammarAST::warnings (unused_symbols)                                     *)
+(* ======================================================================== *)
+Definition mem_str (l : list str) (n : str) : bool := existsb (str_eqb n) l.
+
+(* the [while let Some(pidx) = todo.pop()] loop *)
+Fixpoint seen_loop (f : nat) (a : gast) (todo : list nat) (seen_r seen_t : list str)
+  : outcome (list str * list str) :=
+  match f with
+  | 0 => OutOfFuel
+  | S f' =>
+      match rev todo with
+      | [] => Done (seen_r, seen_t)
+      | pidx :: rtodo =>
+          do p <- nth_checked (a_prods a) pidx;
+          let '(todo', sr, stk) :=
+            fold_left (fun (acc : list nat * list str * list str) (s : symbol) =>
+                         let '(td, sr, stk) := acc in
+                         match s with
+                         | SRule n _ =>
+                             if mem_str sr n then acc
+                             else match get_rule (a_rules a) n with
+                                  | Some r => (td ++ r_pidxs r, n :: sr, stk)
+                                  | None => (td, n :: sr, stk)
+                                  end
+                         | SToken n _ => (td, sr, if mem_str stk n then stk else n :: stk)
+                         end) (p_syms p) (rev rtodo, seen_r, seen_t) in
+          seen_loop f' a todo' sr stk
+      end
+  end.
+
+Inductive wkind := UnusedRule | UnusedToken.
+
+Definition warnings (a : gast) : outcome (list (wkind * span)) :=
+  let start_rule := match a_start a with Some (n, _) => get_rule (a_rules a) n | None => None end in
+  let eu_rules := flat_map (fun s => match s with SRule n _ => [n] | _ => [] end) (a_expect_unused a) in
+  let eu_toks := flat_map (fun s => match s with SToken n _ => [n] | _ => [] end) (a_expect_unused a)
+                 ++ match a_implicit_tokens a with Some it => map fst it | None => [] end in
+  do seen <- match start_rule with
+             | Some r => seen_loop (S (List.length (a_prods a))) a (r_pidxs r) [r_name r] []
+             | None => Done ([], [])
+             end;
+  let '(seen_r, seen_t) := seen in
+  let wr := flat_map (fun r => if mem_str eu_rules (r_name r) || mem_str seen_r (r_name r) then []
+                               else [(UnusedRule, r_span r)]) (a_rules a) in
+  (* symidx.symbol(self) indexes ast.spans[idx] *)
+  let fix toks (l : list str) (k : nat) : outcome (list (wkind * span)) :=
+    match l with
+    | [] => Done []
+    | t :: l' =>
+        do rest <- toks l' (S k);
+        if mem_str eu_toks t || mem_str seen_t t then Done rest
+        else do sp <- nth_checked (a_spans a) k; Done ((UnusedToken, sp) :: rest)
+    end in
+  do wt <- toks (a_tokens a) 0;
+  Done (wr ++ wt).
+
+(* ======================================================================== *)
+(*  ASTWithValidityInfo::new                                                  *)
+(* ======================================================================== *)
+(* the %grmtools section parser is the other mirror (C12 header part); this one
+   covers the sources on which it returns position 0, i.e. no [%grmtools]
+   after leading Pattern_White_Space *)
+Definition header_present (src : str) : bool :=
+  prefix_of kw_grmtools (drop_while is_pattern_ws src).
+
+Inductive top :=
+| THeader
+| TResult (a : gast) (errs : list yerr) (warns : outcome (list (wkind * span))).
+
+Definition fuel_for (src : str) : nat := S (byte_len src).
+
+Definition yacc_new_gen (fixed : bool) (fuel : nat) (kind : ykind) (src : str) : outcome top :=
+  if header_present src then Done THeader else
+  do r <- parse fixed kind src (byte_len src) fuel;
+  let '(st, es) := r in
+  do v <- complete_and_validate (ast st);
+  Done (TResult (ast st) (es ++ match v with Some e => [e] | None => [] end) (warnings (ast st))).
+
+Definition yacc_new := yacc_new_gen false.
+Definition run_case (fixed : bool) (kind : ykind) (src : str) : outcome top :=
+  yacc_new_gen fixed (fuel_for src) kind src.
